@@ -367,6 +367,7 @@ type c18Step struct {
 	How string // past | future | zero (for set-*); zero | far (for reset-*)
 	// Quick (read / write steps): the call follows the previous step at once, without the clock moving in between
 	Quick bool
+	Small bool          // read steps: into a 2-byte buffer
 	D     time.Duration // future offset / idle length
 }
 
@@ -390,7 +391,7 @@ func genC18DL(rt *rapid.T) c18DL {
 	n := rapid.IntRange(2, 10).Draw(rt, "nSteps")
 	for i := 0; i < n; i++ {
 		var s c18Step
-		s.Op = rapid.SampledFrom([]string{"set-read", "set-write", "set-both", "idle", "idle", "read", "write", "reset-read", "reset-write", "reset-both"}).Draw(rt, "op")
+		s.Op = rapid.SampledFrom([]string{"set-read", "set-write", "set-both", "idle", "idle", "read", "read", "write", "reset-read", "reset-write", "reset-both"}).Draw(rt, "op")
 		switch {
 		case s.Op == "idle":
 			s.D = rapid.SampledFrom([]time.Duration{time.Millisecond, time.Second, 5 * time.Second}).Draw(rt, "idle")
@@ -401,6 +402,9 @@ func genC18DL(rt *rapid.T) c18DL {
 			s.How = rapid.SampledFrom([]string{"zero", "far"}).Draw(rt, "resetHow")
 		case s.Op == "read" || s.Op == "write":
 			s.Quick = rapid.Bool().Draw(rt, "atOnce")
+			// a Read into a buffer smaller than the message leaves the rest of the message for the next
+			// Read: a deadline that passes meanwhile holds for that rest as for anything else
+			s.Small = s.Op == "read" && rapid.Bool().Draw(rt, "smallBuf")
 		}
 		c.Steps = append(c.Steps, s)
 	}
@@ -451,6 +455,7 @@ func runC18DL(t fataler, c c18DL) (string, c18DLResult) {
 	sawExpiry, sawReset := false, false
 	pastR, pastW := false, false // the current read / write deadline was already in the past when it was set
 	seq := 0
+	var pending []byte // sent by the peer, not yet handed out by a Read
 	for i, s := range c.Steps {
 		// Never act at the very instant a deadline timer fires: whether the call
 		// or the timer comes first is then up to the scheduler (a tie, not a property).
@@ -510,31 +515,42 @@ func runC18DL(t fataler, c c18DL) (string, c18DLResult) {
 			seq++
 			pl := []byte(fmt.Sprintf("in-%d", seq))
 			p.send(ref.Frame{Fin: true, Opcode: ref.OpBinary, Payload: pl})
+			pending = append(pending, pl...)
 			buf := make([]byte, 64)
+			if s.Small {
+				buf = buf[:2]
+				evid.For("C18").Class("deadline-steps:read-leaves-part-of-a-message", 1)
+			}
 			var n int
 			var err error
 			d := e.Call(func() { n, err = nc.Read(buf) })
 			if !within(d, 10*time.Second) {
 				return fmt.Sprintf("step %d: Read did not return", i), res
 			}
+			// what a Read hands out is the next bytes of the stream: all that is left of the message it is in,
+			// or as much of it as the buffer holds
+			okRead := func() bool {
+				return err == nil && n > 0 && bytes.HasPrefix(pending, buf[:n])
+			}
 			if rexp {
 				sawExpiry = true
 				if !isDeadlineErr(err) {
-					return fmt.Sprintf("step %d: read deadline passed while idle, but Read returned %d, %v (want a deadline error)", i, n, err), res
+					return fmt.Sprintf("step %d: read deadline passed while idle, but Read returned %d, %v (want a deadline error; %d bytes of earlier messages were still unread)", i, n, err, len(pending)-len(pl)), res
 				}
 				// the message is still there: read it after a reset
 				nc.SetReadDeadline(time.Time{})
 				rexp, rdl, pastR = false, time.Time{}, false
 				sawReset = true
 				d := e.Call(func() { n, err = nc.Read(buf) })
-				if !within(d, 10*time.Second) || err != nil || !bytes.Equal(buf[:n], pl) {
-					return fmt.Sprintf("step %d: after resetting the read deadline, Read returned %q, %v (want %q): the connection must stay usable", i, buf[:n], err, pl), res
+				if !within(d, 10*time.Second) || !okRead() {
+					return fmt.Sprintf("step %d: after resetting the read deadline, Read returned %q, %v (want the start of %q): the connection must stay usable", i, buf[:n], err, pending), res
 				}
 			} else {
-				if err != nil || !bytes.Equal(buf[:n], pl) {
-					return fmt.Sprintf("step %d: Read returned %q, %v (want %q); read deadline state: %v", i, buf[:n], err, pl, rdl), res
+				if !okRead() {
+					return fmt.Sprintf("step %d: Read returned %q, %v (want the start of %q); read deadline state: %v", i, buf[:n], err, pending, rdl), res
 				}
 			}
+			pending = pending[n:]
 		case "write":
 			if !(pastW && s.Quick) {
 				e.sleep(time.Microsecond)
@@ -577,6 +593,17 @@ func runC18DL(t fataler, c c18DL) (string, c18DLResult) {
 		e.sleep(time.Microsecond)
 	}
 	nc.SetDeadline(time.Time{})
+	for len(pending) > 0 {
+		// what the steps left unread is read now: the final call must find nothing to hand out
+		buf := make([]byte, 64)
+		var n int
+		var err error
+		d := e.Call(func() { n, err = nc.Read(buf) })
+		if !within(d, 10*time.Second) || err != nil || n == 0 || !bytes.HasPrefix(pending, buf[:n]) {
+			return fmt.Sprintf("before the final call: Read returned %q, %v (want the start of %q)", buf[:n], err, pending), res
+		}
+		pending = pending[n:]
+	}
 	if c.StallK > 0 {
 		first := ref.Frame{Fin: true, Opcode: ref.OpBinary, Payload: []byte("in front")}
 		next := ref.Frame{Fin: true, Opcode: ref.OpBinary, Payload: make([]byte, 70000)}
